@@ -4,6 +4,11 @@
  * evaluated over the same structures in both worlds. */
 #ifndef BG_ABS_TYPES_H
 #define BG_ABS_TYPES_H
+#define BG_CAT_(a, b) a##b
+#define BG_CAT(a, b) BG_CAT_(a, b)
+#ifndef BG_L
+#define BG_L NoLabel
+#endif
 typedef unsigned int VertexIndex;
 typedef unsigned long bg_size;
 #ifdef __cplusplus
@@ -160,15 +165,14 @@ typedef struct { bg_size n; bg_vec_sz rowP, rowQ; bg_size m; } bg_mat_sz;
 extern bg_vec_sz bg_scratch_vec_sz;
 #define BG_SCRATCH_CLEAN                                                      \
   (!bg_scratch_row.valid && bg_scratch_row.owner == 0 && bg_cur_adj == 0 &&   \
-   bg_ghost_frontier.a == 0)
+   bg_ghost_frontier.a == 0 && !BG_CAT(bg_scratch_val_, BG_L).valid &&        \
+   !BG_CAT(bg_scratch_val_, BG_L).out)
 #define BG_MAP_FRESH(m)                                                       \
   (__CPROVER_is_fresh((m).valPQ, sizeof(*(m).valPQ)) &&                       \
    __CPROVER_is_fresh((m).valQP, sizeof(*(m).valQP)))
 #ifndef BG_L
 #define BG_L NoLabel
 #endif
-#define BG_CAT_(a, b) a##b
-#define BG_CAT(a, b) BG_CAT_(a, b)
 /* std::unordered_map<Edge, L, hashEdge>: observed at keys (G_P,G_Q), (G_Q,G_P) */
 #define BG_DEFINE_MAP_TYPES(TAG, T)                                           \
   typedef struct bg_map_##TAG {                                               \
